@@ -64,10 +64,18 @@ def d1_claims(facts, rep):
         ok = bool(ws) and all(o['kind'] == 'cas' for _, o in ws)
         rep.ob('D1', 'K1', fn, 'grow_to_at_least raises my_size only by compare-exchange', ok, ', '.join(o['name'] for _, o in ws))
 
+        # `observed < requested` where the operands are the CAS's expected / desired arguments
+        exp_v = set(fn.n(fn.strip(o['expected'])).get('v') for _, o in ws if o['kind'] == 'cas')
+        des_v = set(fn.n(fn.strip(o['val'])).get('v') for _, o in ws if o['kind'] == 'cas')
+
         def lt(a, truth):
             n = fn.n(fn.strip(a))
-            return truth and n.get('k') == 'binop' and n['op'] == '<' and fn.n(fn.strip(n['l'])).get('n') == 'old_size' and \
-                fn.n(fn.strip(n['r'])).get('n') == 'new_size'
+            if n.get('k') != 'binop' or n['op'] not in ('<', '>'):
+                return False
+            l, r = fn.n(fn.strip(n['l'])), fn.n(fn.strip(n['r']))
+            if n['op'] == '>':
+                l, r = r, l
+            return truth and l.get('k') == 'var' and l.get('v') in exp_v and r.get('k') == 'var' and r.get('v') in des_v
         e = edges_where(fn, lt)
         for p, o in ws:
             ok, wit = dominated_by_edges(fn, p, e)
